@@ -253,6 +253,7 @@ func (m *RWMutex) Unlock() {
 }
 
 // RLocker mirrors sync.RWMutex.RLocker.
+//
 //go:norace
 func (m *RWMutex) RLocker() sync.Locker { return (*rlocker)(m) }
 
@@ -262,6 +263,7 @@ func (r *rlocker) Lock()   { (*RWMutex)(r).RLock() }
 func (r *rlocker) Unlock() { (*RWMutex)(r).RUnlock() }
 
 // State reports (readers, writer held, writers waiting) — for oracles.
+//
 //go:norace
 func (m *RWMutex) State() (int, bool, int) {
 	m.g.Lock()
